@@ -243,8 +243,9 @@ theorem cfg_guard (s : Sys F) (e : Ev) (he : isArm e = false) (j : Nat) (l l' : 
   obtain ⟨x, hx, h⟩ := cfg_links s e he j l hl
   rw [hx] at hl'
   cases hl'
-  rcases h with rfl | ⟨weak, ld, ccb, cct, rfl⟩
+  rcases h with rfl | ⟨weak, ld, ccb, cct, rfl⟩ | ⟨T, rfl⟩
   · exact GKeep.refl _
+  · exact gk
   · exact gk
 
 /-! ## 4. `uplink` -/
